@@ -112,7 +112,9 @@ def run(tier, t0):
     mc = vlib.tlc_must_pass(vlib.run_tlc("Relay", "MCRelay.cfg", workers=8, timeout=1800), "MCRelay")
     # (configured idle, configured udp); None = key absent (default 600)
     # incl. one period disabled (0) next to the other one enabled: the two settings must not leak into each other
-    configs = [(1, 2), (2, 1), (0, 0), (None, None), (2, 0), (0, 1), (None, 1), (2, None)] if not thorough else \
+    # (4, 3): periods clearly above the timer's one-second granularity - "closed within period + 2.5 s" then also says that the
+    # check runs every second, not once per period
+    configs = [(1, 2), (2, 1), (0, 0), (None, None), (2, 0), (0, 1), (None, 1), (2, None), (4, 3)] if not thorough else \
         [(1, 2), (2, 1), (3, 5), (5, 3), (0, 0), (None, None), (2, 0), (0, 1), (3, 0), (None, 1), (2, None), (None, 0)]
     listeners = [("http", "direct"), ("socks5", "direct"), ("socks4", "upsocks5"), ("reverse", "direct"), ("http", "uphttp")]
     ntr = 0
